@@ -30,7 +30,8 @@ Proof.
   rewrite take_app by apply le_bytes_length. rewrite le_val_le4 by lia.
   assert (Z.of_nat (length sb) =? 0 = false) as E0 by (destruct sb; [contradiction|cbn [length]; lia]).
   rewrite E0. rewrite take_app by apply le_bytes_length. rewrite le_val_le4 by lia.
-  rewrite !Nat2Z.id. rewrite take_app by reflexivity. rewrite take_app by reflexivity. reflexivity.
+  rewrite znat_app by lia. rewrite take_app by reflexivity.
+  rewrite znat_app by lia. rewrite take_app by reflexivity. reflexivity.
 Qed.
 
 (* ---------------------------------------------------------------- one string-map index *)
@@ -134,7 +135,9 @@ Proof.
       rewrite wcode_nonzero, width_of_wcode.
       destruct (Z.of_nat (length l) =? 0) eqn:E0; [lia|].
       destruct (Z.of_nat (length l) =? 1) eqn:E1; [lia|].
-      rewrite Nat2Z.id. rewrite chunks_flat_map. rewrite map_dec_enc by exact Fit.
+      rewrite znat_app by (rewrite (flat_map_len_const (enc_int w) (wbytes w)) by (intros x _; apply enc_int_length);
+                           destruct w; cbn [wbytes]; lia).
+      rewrite chunks_flat_map. rewrite map_dec_enc by exact Fit.
       rewrite all_nonneg_true by (intros x Hx; apply H; exact Hx). reflexivity.
 Qed.
 
@@ -151,7 +154,7 @@ Proof.
   destruct s as [|b s'].
   - reflexivity.
   - assert (Z.of_nat (length (b :: s')) =? 0 = false) as E0 by (cbn [length]; lia).
-    rewrite E0. rewrite Nat2Z.id. rewrite take_app by reflexivity. rewrite Hu. reflexivity.
+    rewrite E0. rewrite znat_app by lia. rewrite take_app by reflexivity. rewrite Hu. reflexivity.
 Qed.
 
 Definition allele_ok (s : str) : Prop :=
@@ -183,7 +186,9 @@ Proof.
     destruct (H n (or_introl eq_refl)) as [i [Hi Hb]].
     exists (Z.of_nat i :: l). cbn [map_names]. unfold index_of. rewrite Hi. cbn [bind]. rewrite E. cbn [bind].
     split; [reflexivity|]. split; [|split].
-    + cbn [resolve_all]. rewrite Nat2Z.id. rewrite (W1 n i Hi). rewrite R. reflexivity.
+    + cbn [resolve_all].
+      rewrite znat_id by (pose proof (slot_lt _ _ _ (W1 n i Hi)) as L; apply Nat.lt_le_incl; exact L).
+      rewrite (W1 n i Hi). rewrite R. reflexivity.
     + cbn [length]. rewrite Len. reflexivity.
     + intros x [X|X]; [subst x; lia|apply B; exact X].
 Qed.
@@ -276,7 +281,8 @@ Proof.
   { unfold pos. destruct (s_pos s) as [p|]; [specialize (Hp p eq_refl); lia|lia]. }
   rewrite !dec_enc_int by (cbn; lia).
   destruct ((Z.of_nat c <? 0) || (pos <? -1) || (s_rlen s <? 0)) eqn:Eb; [lia|].
-  rewrite Nat2Z.id. rewrite (proj1 Wc _ _ Hc).
+  rewrite znat_id by (pose proof (slot_lt _ _ _ (proj1 Wc _ _ Hc)) as L; apply Nat.lt_le_incl; exact L).
+  rewrite (proj1 Wc _ _ Hc).
   assert (0 <= qual < 4294967296) as Hqr.
   { unfold qual. destruct (s_qual s) as [b|]; [apply (Hq b eq_refl)|unfold f_missing; lia]. }
   rewrite le_val_enc_f32 by exact Hqr.
